@@ -6,6 +6,7 @@ import (
 	"fmt"
 	"os"
 	"path/filepath"
+	"regexp"
 	"sort"
 	"strings"
 	"time"
@@ -40,17 +41,25 @@ func newReport(prop, level string) *Report {
 
 func (r *Report) Rule(id, text string) { r.Rules[id] = text }
 
+// local variable and parameter names are not part of a construct's identity (a rename must not move a known finding)
+var localNameRE = regexp.MustCompile(`\b(alloc|param):[A-Za-z_0-9]+`)
+
+func stableCons(c string) string { return localNameRE.ReplaceAllString(c, "$1:_") }
+
 func (r *Report) Ok(rule, construct string, facts ...string) {
+	construct = stableCons(construct)
 	r.Obls = append(r.Obls, Obl{Rule: rule, Construct: construct, Status: "discharged", Facts: facts})
 	r.counts[rule]++
 }
 
 func (r *Report) Fail(rule, construct, pos, detail string, facts ...string) {
+	construct = stableCons(construct)
 	r.Obls = append(r.Obls, Obl{Rule: rule, Construct: construct, Status: "violated", Pos: pos, Detail: detail, Facts: facts})
 	r.counts[rule]++
 }
 
 func (r *Report) Undecided(rule, construct, pos, detail string) {
+	construct = stableCons(construct)
 	r.Obls = append(r.Obls, Obl{Rule: rule, Construct: construct, Status: "undecided", Pos: pos, Detail: detail})
 	r.counts[rule]++
 }
